@@ -30,8 +30,8 @@ type jqState struct {
 	agents  map[string]uint32 // symbol -> real id
 	nextID  int
 	nextReq uint32
-	reqID   map[uint32]int    // real request id -> abstract job id
-	fileSym map[uint32]int    // real memfile id -> file symbol
+	reqID   map[uint32]int // real request id -> abstract job id
+	fileSym map[uint32]int // real memfile id -> file symbol
 	nextFil int
 	uploads map[uint32][]byte // use-job request id -> content
 	deliv   map[int]bool      // abstract ids already delivered
